@@ -40,6 +40,41 @@ Proof.
   - exact (hash_step dbg shp shs u su v C Hv).
 Qed.
 
+(* ... and the ten API strings of the results agree *)
+Theorem five_step_api u su s v : corr u su -> five s = true -> usv_list v -> known_c07 u s v = 0 ->
+  exists u' su', model_set dbg hp ho hd s u v = Some u' /\ spec_step shp s su v = Some su' /\ corr u' su'
+    /\ model_api dbg u' = Some (spec_api_list shs su').
+Proof.
+  intros C Hs Hv Hk. destruct (five_step u su s v C Hs Hv Hk) as (u' & su' & A & B & C').
+  exists u', su'. split; [exact A|]. split; [exact B|]. split; [exact C'|]. exact (corr_api dbg shs u' su' C').
+Qed.
+
+(* the five setters one by one (Known_C07 is empty for four of them) *)
+Theorem hash_equiv u su v : corr u su -> usv_list v ->
+  exists u' su', model_set dbg hp ho hd QHash u v = Some u' /\ spec_step shp QHash su v = Some su' /\ corr u' su'
+    /\ model_api dbg u' = Some (spec_api_list shs su').
+Proof. intros C Hv. exact (five_step_api u su QHash v C eq_refl Hv eq_refl). Qed.
+
+Theorem search_equiv u su v : corr u su -> usv_list v ->
+  exists u' su', model_set dbg hp ho hd QSearch u v = Some u' /\ spec_step shp QSearch su v = Some su' /\ corr u' su'
+    /\ model_api dbg u' = Some (spec_api_list shs su').
+Proof. intros C Hv. exact (five_step_api u su QSearch v C eq_refl Hv eq_refl). Qed.
+
+Theorem username_equiv u su v : corr u su -> usv_list v ->
+  exists u' su', model_set dbg hp ho hd QUsername u v = Some u' /\ spec_step shp QUsername su v = Some su' /\ corr u' su'
+    /\ model_api dbg u' = Some (spec_api_list shs su').
+Proof. intros C Hv. exact (five_step_api u su QUsername v C eq_refl Hv eq_refl). Qed.
+
+Theorem password_equiv u su v : corr u su -> usv_list v ->
+  exists u' su', model_set dbg hp ho hd QPassword u v = Some u' /\ spec_step shp QPassword su v = Some su' /\ corr u' su'
+    /\ model_api dbg u' = Some (spec_api_list shs su').
+Proof. intros C Hv. exact (five_step_api u su QPassword v C eq_refl Hv eq_refl). Qed.
+
+Theorem port_equiv u su v : corr u su -> usv_list v -> known_c07 u QPort v = 0 ->
+  exists u' su', model_set dbg hp ho hd QPort u v = Some u' /\ spec_step shp QPort su v = Some su' /\ corr u' su'
+    /\ model_api dbg u' = Some (spec_api_list shs su').
+Proof. intros C Hv Hk. exact (five_step_api u su QPort v C eq_refl Hv Hk). Qed.
+
 Lemma five_run : forall ops u su, corr u su -> five_ops ops -> outside_known dbg hp ho hd u ops ->
   exists u' su', model_run dbg hp ho hd u ops = Some u' /\ spec_run shp su ops = Some su' /\ corr u' su'.
 Proof.
